@@ -9,11 +9,11 @@ ID = 'C12'
 COQ_DIR = 'C12'
 COQ_HEADER = 'From V Require Import Common.Num C12.Model.\nOpen Scope Q_scope.'
 RULE = ('histories of 3-30 operations (phases=, phase=, reduce_phases, as_stream, .vle/.lle/.sle, s[phase] view creation, '
-        'writes through views and through the parent, T/P writes through either side, get_data, set_data of any earlier '
+        'writes through views (molar and mass basis, mass-basis reads that fill the view\'s cache) and through the parent, T/P writes through either side, get_data, set_data of any earlier '
         'snapshot, plus a malformed stream: invalid labels, empty/duplicate phase collections, uncovered targets, locked view '
         'phase) on a real Stream or MultiStream over a 3-chemical stub package, dyadic flows distributed over a subset of '
         's l g S L; after EVERY operation class, phases tuple, per phase x chemical flows, T, P, the flows/T/P seen through '
-        'every view object obtained so far, whether it is still the parent\'s cached sub-stream, identity of what s[phase] '
+        'every view object obtained so far (and what its cached mass-basis indexer reads, when filled), whether it is still the parent\'s cached sub-stream, identity of what s[phase] '
         'returned and the exception class of the first raise are compared with the Coq model (values to 1e-9, structure '
         'exactly).  thorough adds all depth-4 histories over an 8-operation alphabet from every phase subset of size <= 3. '
         'non-trivial = at least two operations returned and the observation changed; distinct = distinct case hash')
@@ -34,6 +34,8 @@ TRUSTED = ['model coq/C12/Model.v is hand-written from _stream.py/_multi_stream.
 
 N = 3
 IDS = ['A_', 'B_', 'C_']
+MWS = [16., 32., 8.]
+MASSVALS = [0., 16., 64., -8., 4., 256., 0.5, 48.]
 PH = {'L': 'PL', 'S': 'PS', 'g': 'Pg', 'l': 'Pl', 's': 'Ps'}
 ALL = ['L', 'S', 'g', 'l', 's']
 VALS = [0., 1., -1., 0.5, -0.5, 2., 3., 0.25, 1024., 1 / 1024., 8., 1.5]
@@ -87,7 +89,9 @@ def gen_op(rng):
     if r < 0.345: return ["as_stream"]
     if r < 0.46: return [rng.choice(['vle', 'lle', 'sle'])]
     if r < 0.58: return ['view', rng.choice(ALL) if rng.random() < 0.12 else '@present:%d' % rng.randrange(1 << 30)]
-    if r < 0.68: return ['wview', rng.randrange(64), rng.randrange(N), rng.choice(VALS)]
+    if r < 0.63: return ['wview', rng.randrange(64), rng.randrange(N), rng.choice(VALS)]
+    if r < 0.655: return ['vmass', rng.randrange(64)]
+    if r < 0.68: return ['wvmass', rng.randrange(64), rng.randrange(N), rng.choice(MASSVALS)]
     if r < 0.77: return ['wpar', rng.choice(ALL) if rng.random() < 0.12 else '@present:%d' % rng.randrange(1 << 30),
                          rng.randrange(N), rng.choice(VALS)]
     if r < 0.80: return ['T', rng.choice(TS)]
@@ -139,7 +143,7 @@ def exhaustive_cases():
                 init = {'kind': 'multi', 'phases': subset, 'rows': vals[:k], 'T': 300., 'P': 101325.}
             swapped = sorted({(p.swapcase() if p != 'g' else p) for p in subset} | {'g', 'l'})
             alphabet = [['reduce'], ['vle'], ['lle'], ['sle'], ['phases', swapped], ['view', subset[0]],
-                        ['wview', 0, 0, 3.], ['restore', 0]]
+                        ['wvmass', 0, 0, 48.], ['restore', 0]]
             for seq in itertools.product(alphabet, repeat=4):
                 cases.append({'init': init, 'ops': [['save']] + [list(o) for o in seq]})
     return cases
@@ -148,6 +152,10 @@ CORPUS = [
     # DESIGN.md section 5 item 14: view detached after ms.phases = ...
     {'init': {'kind': 'multi', 'phases': ['g', 'l'], 'rows': [[1., 2., 0.], [0., 0., 0.]], 'T': 300., 'P': 101325.},
      'ops': [['view', 'l'], ['wview', 0, 0, 5.], ['phases', ['g', 'l', 's']], ['wview', 0, 0, 7.], ['wpar', 'l', 1, 2.]]},
+    # mass-basis cache of a view filled before the phase set changes (explicitly / through an accessor / by removal)
+    {'init': {'kind': 'multi', 'phases': ['g', 'l'], 'rows': [[0.5, 0., 0.], [1., 2., 0.]], 'T': 300., 'P': 101325.},
+     'ops': [['view', 'l'], ['view', 'g'], ['vmass', 0], ['vmass', 1], ['phases', ['g', 'l', 's']], ['wpar', 'l', 0, 7.],
+             ['wvmass', 0, 1, 64.], ['lle'], ['wvmass', 1, 0, 48.], ['wpar', 'g', 2, 3.], ['phases', ['g', 'l']], ['wvmass', 0, 2, 4.]]},
     # Stream accessors relabel (solid -> liquid) / raise for 'S' (known findings, see WITNESSES)
     {'init': {'kind': 'single', 'phase': 's', 'flow': [1., 0., 0.], 'T': 300., 'P': 101325.}, 'ops': [['vle']]},
     {'init': {'kind': 'single', 'phase': 'S', 'flow': [1., 0., 0.], 'T': 300., 'P': 101325.}, 'ops': [['vle']]},
@@ -219,7 +227,7 @@ def resolve_op(s, op, views, saved, rng_free=True):
         return [name, p] + list(op[2:])
     if name == 'phase' and type(s) is env()['tmo'].Stream and len(op[1]) != 1 and random.Random(len(saved) + len(views)).random() < 0.8:
         return [name, [op[1][0] if op[1] else 'l']]
-    if name in ('wview', 'vT', 'vP', 'vphase'):
+    if name in ('wview', 'vT', 'vP', 'vphase', 'vmass', 'wvmass'):
         if not views: return None
         return [name, op[1] % len(views)] + list(op[2:])
     if name == 'restore':
@@ -245,6 +253,8 @@ def apply_op(s, op, views, saved):
         views.append(v)
         return len(views)
     elif name == 'wview': views[op[1]].imol[IDS[op[2]]] = op[3]
+    elif name == 'vmass': views[op[1]].imass[IDS[0]]          # a mass-basis read: fills the view's mass cache
+    elif name == 'wvmass': views[op[1]].imass[IDS[op[2]]] = op[3]
     elif name == 'wpar':
         tmo = env()['tmo']
         if type(s) is tmo.MultiStream: s.imol[op[1], IDS[op[2]]] = op[3]
@@ -259,6 +269,12 @@ def apply_op(s, op, views, saved):
     else: raise ValueError(name)
     return None
 
+def peek_mass(v):
+    """what the mass-basis indexer cached in the view's indexer object reads (None while the cache is empty);
+    looking does not fill the cache"""
+    m = v._imol._data_cache.get('mass')
+    return None if m is None else [fr_json(frac(x)) for x in dense(m.data)]
+
 def observe(s, views, lastret, saved):
     tmo = env()['tmo']
     fl = flows_of(s)
@@ -267,7 +283,7 @@ def observe(s, views, lastret, saved):
             'flows': [[fr_json(frac(x)) for x in r] for _, r in fl],
             'T': fr_json(frac(s.T)), 'P': fr_json(frac(s.P)),
             'views': [{'label': v.phase, 'flow': [fr_json(frac(x)) for x in dense(v.mol)], 'T': fr_json(frac(v.T)),
-                       'P': fr_json(frac(v.P)), 'in': streams.get(v.phase) is v} for v in views],
+                       'P': fr_json(frac(v.P)), 'in': streams.get(v.phase) is v, 'mass': peek_mass(v)} for v in views],
             'ret': lastret, 'saved': len(saved)}
 
 def run_impl(case):
@@ -292,7 +308,8 @@ def cphase(p): return PH[p]
 def cvec(js): return qlist([F(x) for x in js])
 
 def cobs(o):
-    vs = clist([f'(mkvobs {cphase(v["label"])} {cvec(v["flow"])} {q(F(v["T"]))} {q(F(v["P"]))} {cbool(v["in"])})'
+    vs = clist([f'(mkvobs {cphase(v["label"])} {cvec(v["flow"])} {q(F(v["T"]))} {q(F(v["P"]))} {cbool(v["in"])} '
+                f'{copt(v["mass"], cvec)})'
                 for v in o['views']])
     return (f'(mkobs {cbool(o["multi"])} {clist(o["phases"], cphase)} {clist([cvec(r) for r in o["flows"]])} '
             f'{q(F(o["T"]))} {q(F(o["P"]))} {vs} {cnat(o["ret"])} {cnat(o["saved"])})')
@@ -314,6 +331,8 @@ def cop(o):
     if n == 'vT': return f'(OViewSetT {cnat(o[1])} {q(o[2])})'
     if n == 'vP': return f'(OViewSetP {cnat(o[1])} {q(o[2])})'
     if n == 'vphase': return f'(OViewSetPhase {cnat(o[1])} {cphase(o[2])})'
+    if n == 'vmass': return f'(OViewMassTouch {cnat(o[1])})'
+    if n == 'wvmass': return f'(OViewMassWrite {cnat(o[1])} {cnat(o[2])} {q(o[3])})'
     if n == 'save': return 'OSave'
     if n == 'restore': return f'(ORestore {cnat(o[1])})'
     raise ValueError(n)
@@ -321,9 +340,9 @@ def cop(o):
 def cinit(case):
     i = case['init']
     if i['kind'] == 'single':
-        return f'(init_single {cnat(N)} {cphase(i["phase"])} {qlist(i["flow"])} {q(i["T"])} {q(i["P"])})'
+        return f'(init_single {cnat(N)} {qlist(MWS)} {cphase(i["phase"])} {qlist(i["flow"])} {q(i["T"])} {q(i["P"])})'
     rows = sorted(zip(i['phases'], i['rows']))
-    return (f'(init_multi {cnat(N)} {clist([f"({cphase(p)}, {qlist(r)})" for p, r in rows])} '
+    return (f'(init_multi {cnat(N)} {qlist(MWS)} {clist([f"({cphase(p)}, {qlist(r)})" for p, r in rows])} '
             f'{q(i["T"])} {q(i["P"])})')
 
 def coq_case(case, out):
@@ -431,7 +450,7 @@ def oracle(case):
                         return f'{name}: placement: phase {p!r} holds {row}, expected {exp[p]} (step {step}, {r})'
         elif name in ('wview', 'wpar'):
             pass
-        elif name in ('T', 'P', 'vT', 'vP', 'vphase'):
+        elif name in ('T', 'P', 'vT', 'vP', 'vphase', 'vmass'):
             if after != before: return f'{name}: changed flows or phases'
         if name == 'restore':
             cls, phases, rows, T, P = records[r[1]]
@@ -448,6 +467,10 @@ def oracle(case):
                 return f'view {k} ({lbl}) does not share T/P with its parent after {name} (step {step})'
             if live[k]:
                 row = dict(after)[d]
+                m = v._imol._data_cache.get('mass')      # looked at, not filled
+                if m is not None and not close(dense(m.data), [x * w for x, w in zip(row, MWS)]):
+                    return (f'views_live(mass basis): after {name} the sub-stream {lbl!r} obtained earlier reads {dense(m.data)} kg/hr '
+                            f'but the parent\'s {d!r} row is {row} kmol/hr (step {step}, {r})')
                 if dense(v.mol) != row:
                     return (f'views_live: after {name} the sub-stream {lbl!r} obtained earlier reads {dense(v.mol)} but the '
                             f'parent\'s {d!r} row is {row} (step {step}, {r})')
@@ -456,6 +479,12 @@ def oracle(case):
             d = lbl if lbl in cur else swap(lbl)
             if dict(after)[d][r[2]] != r[3]:
                 return f'views_live: write through sub-stream {lbl!r} is not visible in the parent (step {step}, {r})'
+        if name == 'wvmass' and live[r[1]]:
+            lbl = views[r[1]].phase
+            d = lbl if lbl in cur else swap(lbl)
+            if not close([dict(after)[d][r[2]]], [r[3] / MWS[r[2]]]):
+                return (f'views_live(mass basis): write of {r[3]} kg/hr through sub-stream {lbl!r} is not visible in the parent '
+                        f'({dict(after)[d][r[2]]} kmol/hr, step {step}, {r})')
         if name == 'wpar':
             lbl = r[1] if is_multi else s.phase
             d = lbl if lbl in cur else swap(lbl)
@@ -475,6 +504,7 @@ def finding_key(case, msg):
         if head == 'lle': return 'C12:lle-relabels-nonliquid'
         return 'C12:sle-relabels-gas' if "material of phase 'g' has no place" in msg else 'C12:sle-S-into-l'
     if head.startswith('view '): head = 'view-TP'
+    if head.startswith('views_live(mass'): head = 'views_live_mass'
     if 'raised' in msg: head += '-raised'
     if 'has no place' in msg: head += '-no-place'
     return 'C12:' + head.replace(' ', '_')
